@@ -45,6 +45,16 @@ for c1, c2 in ((1, 1), (2, 1), (1, 2), (3, 2), (2, 3), (3, 3)):
 GROUPS.append(G("mem_move.5", "harness/C05/mem.c", "h_mem_move", MEM, defs=["C1=5", "C2=0"], level="B",
                 bound="memMove: count 5, every placement in one arena", unwind=8, spec_unwind=20, search=50000, fn=["memMove"]))
 
+ZZM = ["src/math/zz/zz_mod.c", "src/math/zz/zz_add.c", "src/math/zz/zz_etc.c", "src/math/ww.c", "src/core/mem.c",
+       "src/core/word.c", "src/core/u64.c", "src/core/u32.c", "src/core/u16.c"]
+ZZMFN = [f + e for f in ("zzAddMod", "zzSubMod", "zzAddWMod", "zzSubWMod", "zzNegMod", "zzDoubleMod", "zzHalfMod") for e in ("", "_fast")] + \
+        ["zzAddAndW", "zzSubAndW", "zzIsEven", "zzIsOdd"]
+for n in (1, 2, 4):
+    for al in (0, 1, 2, 4):
+        GROUPS.append(G("zz_mod.n%d.alias%d" % (n, al), "harness/C05/zz_mod.c", "h_zz_mod", ZZM,
+                        defs=["N=%d" % n, "ALIAS=%d" % al], level="B", bound="operand length <= 4 words",
+                        unwind=n + 3, spec_unwind=n + 3, search=30000, split=True, fn=ZZMFN))
+
 # ---- unbounded contract groups (dfcc + loop contracts), symbolic n ---------------------
 def L(assigns, inv, dec="n - i"):
     return dict(assigns=assigns, inv=inv, dec=dec)
